@@ -4,6 +4,8 @@ import (
 	"bytes"
 	"fmt"
 
+	sms "github.com/hujm2023/go-sms-protocol"
+
 	"verifmon/fw"
 	"verifmon/pdus"
 )
@@ -103,6 +105,9 @@ func fieldAt(t *pdus.Type, v *pdus.Values, off int) string {
 	return "beyond-end"
 }
 
+// c02Recv: one long-lived PDU value per type and worker process.
+var c02Recv = map[string]sms.PDU{}
+
 func c02Case(c *fw.Case, t *pdus.Type, force, class int, g *gridCell) {
 	v, classes := pdus.Gen(t, c.R, force, class)
 	if g != nil {
@@ -198,6 +203,15 @@ func c02Case(c *fw.Case, t *pdus.Type, force, class int, g *gridCell) {
 	img := pdus.RefEncode(t, rv)
 	keep := append([]byte(nil), img...)
 	qd := t.New()
+	if g == nil && c.R.Chance(1, 3) {
+		// a receive loop decodes every frame into the same value: what the previous frame (other values of the same
+		// type) left in it is not part of this image
+		if o, ok := c02Recv[t.Key()]; ok {
+			qd = o
+		} else {
+			c02Recv[t.Key()] = qd
+		}
+	}
 	derr, psig, pd := decode(c, qd, img)
 	switch {
 	case psig != "":
